@@ -688,6 +688,29 @@ class Program:
         whether the caller unwraps the result or handles an error that cannot occur."""
         import values as _v
         self.pruned_arms = []
+        # (0) `if cfg!(debug_assertions) { .. }` and the like: a switch on a local that the same block sets to a literal
+        for path, fn in list(self.fns.items()):
+            j = None
+            for bl in fn.blocks:
+                t = bl.term
+                if t["k"] != "switch":
+                    continue
+                o = t["op"].get("mv") or t["op"].get("cp")
+                c = t["op"].get("c")
+                if c is None and o and not o.get("p"):
+                    ds = [st for st in bl.stmts if st["k"] == "assign" and st["dst"]["l"] == o["l"] and not st["dst"].get("p")]
+                    if ds and ds[-1]["rv"]["k"] == "use":
+                        c = ds[-1]["rv"]["op"].get("c")
+                if isinstance(c, dict) and isinstance(c.get("int"), int) and not isinstance(c.get("int"), bool) and c.get("ty") in ("bool",):
+                    val = c["int"]
+                    tgt = next((cs[1] for cs in t["cases"] if cs[0] == val), t["otherwise"])
+                    if j is None:
+                        import copy
+                        j = copy.deepcopy(fn.j)
+                    j["blocks"][bl.idx]["term"] = {"k": "goto", "tgt": tgt, "span": t.get("span"), "mac": t.get("mac"), "line": t.get("line")}
+                    self.pruned_arms.append((path, bl.idx, "const %s" % val))
+            if j is not None:
+                self.fns[path] = Fn(path, j, fn.crate)
         cands = [p for p, fn in self.fns.items() if not fn.derived and any(bl.term["k"] == "switch" for bl in fn.blocks)]
         for path in cands:
             fn = self.fns[path]
@@ -723,7 +746,7 @@ class Program:
                 if j is None:
                     import copy
                     j = copy.deepcopy(fn.j)
-                j["blocks"][bl.idx]["term"] = {"k": "goto", "tgt": tgt, "span": t.get("span"), "mac": t.get("mac")}
+                j["blocks"][bl.idx]["term"] = {"k": "goto", "tgt": tgt, "span": t.get("span"), "mac": t.get("mac"), "line": t.get("line")}
                 self.pruned_arms.append((path, bl.idx, kv))
             if j is not None:
                 self.fns[path] = Fn(path, j, fn.crate)
